@@ -153,6 +153,7 @@ RenameOut(t, P1, n1, cls1, P2, n2, cls2) ==
 
 \* SETATTR: mode, size, uid, gid (times are not compared anywhere)
 SetattrOut(t, P, hasmode, mode, hassize, size, chown, uid, gid, maxfs) ==
+  \* (a mode3 with bits above 16 bits may also be refused: CoreTrace adds Fail for it)
   LET r == Resolve(t, P)
       app(n) == LET n1 == IF hasmode THEN [n EXCEPT !.perm = Perm(mode)] ELSE n
                     n2 == IF chown THEN [n1 EXCEPT !.uid = uid, !.gid = gid] ELSE n1
